@@ -24,6 +24,7 @@ using std::vector;
 
 namespace {
 
+int g_target_window = -1;
 struct Ctx {
   uint64_t k = 0; int mode = 0;
   uint64_t window_requests = 0;
@@ -33,7 +34,11 @@ struct Ctx {
   bool in_window = false;
   string uniq; // unique name stem for IPC objects / temp files
   vector<string> ipc_names; // user-level IPC names used by the scenario (for the leftover census)
-  void W0() { in_window = true; va::arm(k, mode == 1); }
+  int widx = 0;
+  // the k-th request of EVERY window fails (target -1), or only that of window g_target_window (the other windows just count): the second
+  // form keeps the state a later window starts from intact - a window that failed earlier may have removed exactly the precondition
+  // (e.g. an error that still holds a message) under which a later call goes wrong
+  void W0() { in_window = true; bool active = g_target_window < 0 || widx == g_target_window; widx++; va::arm(active ? k : 0, active && mode == 1); }
   void W1() { failed_requests += va::st().failed; window_requests += va::disarm(); in_window = false; }
   void fail(const string &kl, const string &msg) { if (verdict.empty()) { verdict = msg; klass = kl; } }
   bool ok(bool cond, const string &kl, const string &msg) { if (!cond) fail(kl, msg); return cond; }
@@ -343,14 +348,19 @@ void scen_error(Ctx &x) {
   x.W1();
   if (c) { x.ok(p_error_get_code(c) == 1, "damage", "copy fields wrong"); const pchar *m = p_error_get_message(c); x.ok(m == NULL || !strcmp(m, "old"), "damage", "copy message wrong"); p_error_free(c); }
   x.ok(!strcmp(p_error_get_message(e), "old") && p_error_get_code(e) == 1, "damage", "source error changed by failed copy");
+  p_error_set_message(e, "old");
   x.W0();
   p_error_set_message(e, "new message");
   x.W1();
   { const pchar *m = p_error_get_message(e); x.ok(m == NULL || !strcmp(m, "new message") || !strcmp(m, "old"), "damage", "message after failed set_message is garbage"); }
+  // every window fails its own k-th request, so the window before may have left the message NULL: give the error a message again first
+  // (an error that HOLDS a message is the state in which a failed update can leave a stale pointer behind)
+  p_error_set_message(e, "again");
   x.W0();
   p_error_set_error(e, 7, 8, "third");
   x.W1();
-  { const pchar *m = p_error_get_message(e); x.ok(m == NULL || !strcmp(m, "third") || !strcmp(m, "new message") || !strcmp(m, "old"), "damage", "message after failed set_error is garbage"); }
+  { const pchar *m = p_error_get_message(e); x.ok(m == NULL || !strcmp(m, "third") || !strcmp(m, "again"), "damage", "message after failed set_error is garbage"); }
+  { PError *cp = p_error_copy(e); if (cp) { const pchar *m2 = p_error_get_message(cp), *m1 = p_error_get_message(e); x.ok((m1 == NULL) == (m2 == NULL) && (!m1 || !strcmp(m1, m2)), "damage", "copy of the error after a failed set_error differs from it"); p_error_free(cp); } }
   PError *pe = NULL;
   x.W0();
   p_error_set_error_p(&pe, 3, 4, "via pointer");
@@ -741,7 +751,7 @@ const Scen *find_scen(const string &n) {
   return nullptr;
 }
 
-struct Result { string verdict, klass; uint64_t window = 0, failed = 0; long residual = 0; };
+struct Result { string verdict, klass; uint64_t window = 0, failed = 0; long residual = 0; int windows = 0; };
 
 // runs one (scenario, k, mode) in this process
 Result run_one(const Scen &s, uint64_t k, int mode, long residual_ok = 0) {
@@ -753,7 +763,7 @@ Result run_one(const Scen &s, uint64_t k, int mode, long residual_ok = 0) {
   s.fn(x);
   if (x.in_window) x.W1();
   x.drop_err();
-  Result r; r.window = x.window_requests; r.failed = x.failed_requests;
+  Result r; r.window = x.window_requests; r.failed = x.failed_requests; r.windows = x.widx;
   if (x.verdict.empty()) {
     // allow detached/just-finished thread bookkeeping to settle
     for (int i = 0; i < 50 && (long)va::live_count() - (long)base_live > residual_ok; i++) { struct timespec ts = {0, 2000000}; nanosleep(&ts, NULL); }
@@ -776,7 +786,7 @@ int g_nr_fd = -1; char g_nr_scen[96];
 void no_return_cb(int) {
   char msg[400];
   snprintf(msg, sizeof msg, "a library call of the scenario does not return: the process has spent %d s of CPU time inside it (scenarios take milliseconds) - a failed call left the library in a state in which a later call spins forever", NO_RETURN_CPU_S);
-  if (g_nr_fd >= 0) { dprintf(g_nr_fd, "\nVRESULT 0 1 0 no-return|%s\n", msg); _exit(1); }
+  if (g_nr_fd >= 0) { dprintf(g_nr_fd, "\nVRESULT 0 1 0 0 no-return|%s\n", msg); _exit(1); }
   printf("REPLAY-FAIL C18:no-return:%s: %s\n", g_nr_scen, msg); fflush(stdout); _exit(1);
 }
 void arm_no_return(int fd, const char *scen) {
@@ -785,7 +795,7 @@ void arm_no_return(int fd, const char *scen) {
   struct itimerval it; memset(&it, 0, sizeof it); it.it_value.tv_sec = NO_RETURN_CPU_S; setitimer(ITIMER_VIRTUAL, &it, NULL);
 }
 // forked execution; returns verdict ("" ok). died=true if the child was killed / sanitizer abort
-Result run_forked(const Scen &s, uint64_t k, int mode, string *child_out, long residual_ok = 0) {
+Result run_forked(const Scen &s, uint64_t k, int mode, string *child_out, long residual_ok = 0, int target_window = -1) {
   int pfd[2];
   if (pipe(pfd) != 0) { Result r; r.verdict = "harness: pipe failed"; r.klass = "harness"; return r; }
   fflush(NULL);
@@ -796,8 +806,9 @@ Result run_forked(const Scen &s, uint64_t k, int mode, string *child_out, long r
     dup2(pfd[1], 2);
     alarm(60);
     if (k > 0) arm_no_return(pfd[1], s.name);
+    g_target_window = target_window;
     Result r = run_one(s, k, mode, residual_ok);
-    dprintf(pfd[1], "\nVRESULT %llu %llu %ld %s|%s\n", (unsigned long long)r.window, (unsigned long long)r.failed, r.residual, r.klass.c_str(), r.verdict.c_str());
+    dprintf(pfd[1], "\nVRESULT %llu %llu %ld %d %s|%s\n", (unsigned long long)r.window, (unsigned long long)r.failed, r.residual, r.windows, r.klass.c_str(), r.verdict.c_str());
     _exit(r.verdict.empty() ? 0 : 1);
   }
   close(pfd[1]);
@@ -810,9 +821,9 @@ Result run_forked(const Scen &s, uint64_t k, int mode, string *child_out, long r
   Result r;
   size_t p = out.rfind("VRESULT ");
   if (p != string::npos) {
-    unsigned long long w = 0, f = 0; long rs = 0; int off = 0;
-    sscanf(out.c_str() + p, "VRESULT %llu %llu %ld %n", &w, &f, &rs, &off);
-    r.window = w; r.failed = f; r.residual = rs;
+    unsigned long long w = 0, f = 0; long rs = 0; int off = 0, nw = 0;
+    sscanf(out.c_str() + p, "VRESULT %llu %llu %ld %d %n", &w, &f, &rs, &nw, &off);
+    r.window = w; r.failed = f; r.residual = rs; r.windows = nw;
     string rest = out.substr(p + off);
     rest = rest.substr(0, rest.find('\n'));
     size_t bar = rest.find('|');
@@ -829,7 +840,7 @@ Result run_forked(const Scen &s, uint64_t k, int mode, string *child_out, long r
   return r;
 }
 
-string case_text(const string &scen, uint64_t k, int mode) { return "fault " + scen + " " + std::to_string(k) + " " + std::to_string(mode) + "\n"; }
+string case_text(const string &scen, uint64_t k, int mode, int window = -1) { return "fault " + scen + " " + std::to_string(k) + " " + std::to_string(mode) + (window >= 0 ? " " + std::to_string(window) : string()) + "\n"; }
 
 int run_generated() {
   long shard = vl::envl("VERIF_SHARD", 0), nshards = vl::envl("VERIF_NSHARDS", 1);
@@ -885,6 +896,30 @@ int run_generated() {
           }
         }
       }
+    // the same, one window at a time (scenarios with more than one window; table scenarios always, generated histories in the thorough tier)
+    if (base.windows > 1 && (string(s.configs) != "T" || thorough))
+      for (int j = 0; j < base.windows; j++) {
+        if ((idx++ % nshards) != shard) continue;
+        bool reached = true;
+        for (uint64_t k = 1; k <= N && reached; k++)
+          for (int mode = 0; mode < 2; mode++) {
+            string text = case_text(s.name, k, mode, j);
+            vl::set_current_case("enum", text);
+            string cout_;
+            Result r = run_forked(s, k, mode, &cout_, base.residual, j);
+            vl::stats().record(text, k >= 2, vl::fnv1a(text));
+            vl::stats().klass(string(mode ? "isolated_window_all_after" : "isolated_window_once"));
+            if (r.failed == 0 && r.verdict.empty()) { if (mode == 0) reached = false; break; }   // window j has fewer than k requests
+            if (!r.verdict.empty()) {
+              string key = r.klass + ":" + s.name;
+              if (vl::excluded(key)) { vl::stats().count("tolerated_known_" + key); continue; }
+              if (reported.insert(key).second) {
+                vl::report_failure("enum_" + key, text, "C18:" + r.klass + ":" + s.name + ": " + r.verdict + " [fail request " + std::to_string(k) + (mode ? " and all later" : " once") + " of window " + std::to_string(j) + " only]", r.klass);
+                failed++;
+              }
+            }
+          }
+      }
   }
   vl::stats().exhaustive["every_allocation_index_of_every_listed_scenario"] = thorough;
   return failed;
@@ -896,6 +931,7 @@ string run_replay(const string &text) {
   const Scen *s = find_scen(w[1]);
   if (!s) return "unknown scenario " + w[1];
   Result base = run_forked(*s, 0, 0, nullptr);
+  g_target_window = w.size() > 4 ? atoi(w[4].c_str()) : -1;
   arm_no_return(-1, s->name);
   Result r = run_one(*s, strtoull(w[2].c_str(), 0, 10), atoi(w[3].c_str()), base.residual);
   { struct itimerval off; memset(&off, 0, sizeof off); setitimer(ITIMER_VIRTUAL, &off, NULL); }
